@@ -235,6 +235,12 @@ class LDAWrapper(LinearSolver):
                 # the error left by an iterative solver. What is within the tolerance of the span adds nothing
                 if not np.isfinite(bnrm) or bnrm <= max(1e-10, self.tol) * bnrm0:
                     continue
+                # Recalculate the right-hand side that belongs to the orthogonalized solution: what is left of `badd` after
+                # subtracting nearly parallel vectors has lost digits, which would make (xadd, badd) an inexact pair
+                xfull = np.zeros(A.shape[0], dtype=xadd.dtype)
+                xfull[isel] = xadd
+                badd = (A @ xfull)[isel, ...]
+                bnrm = np.linalg.norm(badd)
                 badd /= bnrm
                 xadd /= bnrm
                 x_data.append(xadd)
